@@ -308,7 +308,7 @@ def _zeros(eng, args, kwargs):
 
 def _concatenate(eng, args, kwargs):
     seq = args[0].items if isinstance(args[0], PList) else args[0]
-    if not (isinstance(seq, (list, tuple)) and any(isinstance(x, SArr) for x in seq)):
+    if not (isinstance(seq, (list, tuple)) and any(isinstance(x, SArr) for x in seq)) or npmodels.has_s2(seq):
         return narr.np_concatenate(eng, args, kwargs)
     used(eng, "np.concatenate of 1-D arrays: the parts in order")
     if kwargs.get("axis", args[1] if len(args) > 1 else 0) not in (0, None):
@@ -387,6 +387,8 @@ def _norm(eng, args, kwargs):
     if len(args) > 2:
         kw["axis"] = args[2]
     a = args[0]
+    if isinstance(a, SArr) or npmodels.has_s2(a):
+        return npmodels.s2_norm(eng, args, kwargs)
     if not isinstance(a, NArr) and not isinstance(a, (PList, list, tuple)):
         return narr.np_norm(eng, [a], kw)
     a = narr._as_narr(eng, a)
